@@ -151,6 +151,23 @@ func rtCall(name string, b []byte) c18Call {
 	}}
 }
 
+// journalCall parses a feed, builds a journal from it and its shortened later version, and
+// exports it through the package-level templates.
+func journalCall(name string, b []byte) c18Call {
+	return c18Call{name, func(opts *gtfs.ParseRealtimeOptions) string {
+		r, err := gtfs.ParseRealtime(b, opts)
+		if err != nil {
+			return "error: " + err.Error()
+		}
+		j := buildJournal([]*gtfs.Realtime{r, deriveFeed(r, 2)}, farPast, farFuture)
+		e, err := j.ExportToCsv()
+		if err != nil {
+			return "error: " + err.Error()
+		}
+		return dumpJournal(j) + string(e.TripsCsv) + string(e.StopTimesCsv)
+	}}
+}
+
 func staticCall(name string, z []byte) c18Call {
 	return c18Call{name, func(*gtfs.ParseRealtimeOptions) string {
 		r, err := gtfs.ParseStatic(z, gtfs.ParseStaticOptions{InheritWheelchairBoarding: true})
@@ -165,8 +182,9 @@ func staticCall(name string, z []byte) c18Call {
 }
 
 var c18Inputs struct {
-	feeds [][]byte
-	zip   []byte
+	feeds      [][]byte
+	zip        []byte
+	zipUnknown []byte // the first agency's timezone is a name the tz database does not know (never seen before in this process)
 }
 
 var c18Salt int
@@ -191,6 +209,9 @@ func c18Init() {
 		cd.set(r, "date", day.AddDate(0, 0, r+1).Format("20060102"))
 	}
 	c18Inputs.zip = renderFeed(m, presentation{})
+	mu := m.clone()
+	mu.t("agency.txt").set(0, "agency_timezone", fmt.Sprintf("Nowhere/Zone%d", c18Salt))
+	c18Inputs.zipUnknown = renderFeed(mu, presentation{})
 }
 
 func c18Harness(cfg c18Config, calls func() []c18Call) Harness {
@@ -310,7 +331,7 @@ func init() {
 	register(&Check{
 		ID:    "C18",
 		Level: "model_checking",
-		Rule: "threads = parse calls (each followed by hashing and walking its own result) sharing input buffers and one options value; scenarios: realtime||realtime on the same buffer and on two different feeds (elevator feeds that share groups for nyctalerts), static||static on the same archive, static||realtime, for 4 configurations (nil Extension, no-op, nycttrips, nyctalerts); thorough adds 3-thread scenarios; every interleaving at the scheduling points (extension method calls + per-entity / per-file hooks) with <= 2 preemptions (thorough <= 3), each executed under -race with a hand-off the detector cannot see; " +
+		Rule: "threads = parse calls (each followed by hashing and walking its own result) sharing input buffers and one options value; scenarios: realtime||realtime on the same buffer and on two different feeds (elevator feeds that share groups for nyctalerts), static||static on the same archive (known and never-seen unknown agency zone), static||realtime, journal+CSV export||journal+CSV export, for 4 configurations (nil Extension, no-op, nycttrips, nyctalerts); thorough adds 3-thread scenarios; every interleaving at the scheduling points (extension method calls + per-entity / per-file hooks) with <= 2 preemptions (thorough <= 3), each executed under -race with a hand-off the detector cannot see; " +
 			"non-trivial = distinct schedules in which both threads ran between points; oracle = zero race reports (runtime.RaceErrors per schedule) and every call's dump equal to its solo dump",
 		Assumptions: []string{"the Go race detector is trusted (no false positives; bounded shadow history)", "synchronisation inside the standard library / protobuf (sync.Pool, sync.Once) creates real happens-before edges that can hide a conflict in one schedule; the explored preemptions move the calls relative to those edges", "exhaustive over schedules at the listed points within the preemption bound, and over memory for the executed paths; not over inputs"},
 		Scenarios: func(tier string) []*Scenario {
@@ -344,7 +365,13 @@ func init() {
 				&Scenario{Name: "static-same-archive", Bound: k, Run: c18Harness(c18Configs[1], func() []c18Call {
 					return []c18Call{staticCall("ParseStatic(z)", c18Inputs.zip), staticCall("ParseStatic(z)", c18Inputs.zip)}
 				})},
-				&Scenario{Name: "static-and-realtime", Bound: k, Run: c18Harness(c18Configs[2], func() []c18Call {
+				&Scenario{Name: "static-unknown-timezone", Bound: k, Run: c18Harness(c18Configs[1], func() []c18Call {
+				return []c18Call{staticCall("ParseStatic(z, unknown agency zone)", c18Inputs.zipUnknown), staticCall("ParseStatic(z, unknown agency zone)", c18Inputs.zipUnknown)}
+			})},
+			&Scenario{Name: "journal-and-export", Bound: k, Run: c18Harness(c18Configs[2], func() []c18Call {
+				return []c18Call{journalCall("journal+export(feed3)", c18Inputs.feeds[3]), journalCall("journal+export(feed5)", c18Inputs.feeds[5])}
+			})},
+			&Scenario{Name: "static-and-realtime", Bound: k, Run: c18Harness(c18Configs[2], func() []c18Call {
 					return []c18Call{staticCall("ParseStatic(z)", c18Inputs.zip), rtCall("ParseRealtime(mixed)", c18Inputs.feeds[5])}
 				})},
 			)
